@@ -1,8 +1,9 @@
 package main
 
 import (
-	"go/types"
 	"fmt"
+	"go/token"
+	"go/types"
 	"sort"
 	"strings"
 
@@ -418,15 +419,15 @@ func checkC05(c *Ctx, r *Report) {
 	r.Floor("C05.R3", nDirect, 1, "direct-result branches in the cache-or-fetch group")
 	// dedupFetch fallbacks use the caller's own request
 	nFb := 0
-	for _, fc := range findCalls(f, fetcherT+"fetchDirectlyFromUpstream") {
+	fallbacks := directFallbacks(f)
+	for _, fb := range fallbacks {
 		nFb++
-		arg := resolveVal(fc.Call.Args[1])
-		r.Check(arg == ssa.Value(paramNamed(f, "req")), "C05.R3", fmt.Sprintf("dedupFetch fallback #%d fetches with the caller's own request", nFb), c.InstrPos(fc), "argument is dedupFetch's req parameter", "a fallback fetch does not use the calling client's own request")
+		r.Check(fb.req == ssa.Value(paramNamed(f, "req")), "C05.R3", fmt.Sprintf("dedupFetch fallback #%d fetches with the caller's own request", nFb), c.InstrPos(fb.call), "argument is dedupFetch's req parameter", "a fallback fetch does not use the calling client's own request")
 	}
 	// required fallbacks: ErrNotCacheable branch and shared∧Direct branch
 	haveNC, haveSD := false, false
-	for _, fc := range findCalls(f, fetcherT+"fetchDirectlyFromUpstream") {
-		fsx := factStrs(f, fc)
+	for _, fb := range fallbacks {
+		fsx := fb.facts
 		if hasFact(fsx, "Is(Do(", true) && hasFact(fsx, "ErrNotCacheable)", true) {
 			haveNC = true
 		}
@@ -437,13 +438,128 @@ func checkC05(c *Ctx, r *Report) {
 	r.Check(haveNC, "C05.R3", "uncacheable outcome: every waiter fetches its own response", c.Pos(f.Pos()), "errors.Is(err, ErrNotCacheable) → fetchDirectlyFromUpstream(req)", "dedupFetch has no fallback for ErrNotCacheable: followers of an uncacheable fetch get an error or a consumed body")
 	r.Check(haveSD, "C05.R3", "shared direct result: follower fetches its own response", c.Pos(f.Pos()), "shared ∧ Type==Direct → fetchDirectlyFromUpstream(req)", "a follower may receive the leader's direct (single-use) response")
 
-	// R4
-	if inner != nil {
-		reqArg := inner.Call.Args[1]
-		calls := callsInDerivation(reqArg)
-		detached := calls["context.WithoutCancel"] || calls["context.Background"] || calls["context.TODO"]
-		r.Check(detached, "C05.R4", "shared fetch is detached from the leader's cancellation", c.InstrPos(inner), "request carries context.WithoutCancel/Background", "the coalesced fetch runs with the leader's own request context: when that client disconnects the fetch is cancelled and every follower receives the error")
+	// R4: every request the coalescing closure sends upstream (in its own body or in the helpers it goes through)
+	// carries a context that is detached from the leader's: where the detachment is written — in the closure, or in
+	// each arm of the helper that fetches — does not matter, that every send is covered does
+	nSend := 0
+	for _, hc := range helperContexts(cl, 5) {
+		eachInstr(hc.fn, func(in ssa.Instruction) {
+			call, ok := in.(*ssa.Call)
+			if !ok {
+				return
+			}
+			n := calleeName(call)
+			if n != fetcherT+"fetchUpstream" && n != fetcherT+"fetchDirectlyFromUpstream" && n != fetcherT+"sendRequestToUpstream" {
+				return
+			}
+			nSend++
+			reqArg := argOf(call, "req", 1)
+			detached := reqDetached(reqArg, hc.ctx, 0)
+			r.Check(detached, "C05.R4", fmt.Sprintf("shared fetch is detached from the leader's cancellation (%s in %s)", n[strings.LastIndex(n, ".")+1:], fnKey(hc.fn)), c.InstrPos(call), "request carries context.WithoutCancel/Background", "the coalesced fetch runs with the leader's own request context: when that client disconnects the fetch is cancelled and every follower receives the error")
+		})
 	}
+	r.Floor("C05.R4", nSend, 1, "upstream sends reachable from the coalescing closure")
+}
+
+// reqDetached: the *http.Request v (seen in a body entered through ctx) carries a context that does not end with
+// the client's connection: it was given one by WithContext / Clone, and that context is context.WithoutCancel(...),
+// Background or TODO, possibly decorated (WithValue, WithTimeout, ...) or taken from another such request.
+func reqDetached(v ssa.Value, ctx dctx, d int) bool {
+	if d > 12 {
+		return false
+	}
+	switch x := resolveVal(v).(type) {
+	case *ssa.Call:
+		switch calleeName(x) {
+		case "(*net/http.Request).WithContext", "(*net/http.Request).Clone":
+			return ctxDetached(callArgs(x)[1], ctx, d+1)
+		}
+		if g := helperBody(x); g != nil && len(ctx) < 6 {
+			all, n := true, 0
+			eachInstr(g, func(in ssa.Instruction) {
+				if ret, ok := in.(*ssa.Return); ok && !isRecoverReturn(ret) {
+					n++
+					if vs := retVals(ret); len(vs) == 0 || !reqDetached(vs[0], append(append(dctx{}, ctx...), x), d+1) {
+						all = false
+					}
+				}
+			})
+			return all && n > 0
+		}
+	case *ssa.Parameter:
+		if a, c2, ok := paramArg(x, ctx); ok {
+			return reqDetached(a, c2, d+1)
+		}
+	case *ssa.FreeVar:
+		if b := freeVarBinding(x); b != nil {
+			return reqDetached(b, ctx, d+1)
+		}
+	case *ssa.Phi:
+		for _, e := range x.Edges {
+			if !reqDetached(e, ctx, d+1) {
+				return false
+			}
+		}
+		return len(x.Edges) > 0
+	case *ssa.UnOp:
+		if x.Op == token.MUL {
+			sts := storesTo(x.X)
+			for _, st := range sts {
+				if !reqDetached(st.Val, ctx, d+1) {
+					return false
+				}
+			}
+			if len(sts) > 0 {
+				return true
+			}
+			return reqDetached(x.X, ctx, d+1)
+		}
+	}
+	return false
+}
+
+func ctxDetached(v ssa.Value, ctx dctx, d int) bool {
+	if d > 12 {
+		return false
+	}
+	switch x := resolveVal(v).(type) {
+	case *ssa.Call:
+		switch calleeName(x) {
+		case "context.WithoutCancel", "context.Background", "context.TODO":
+			return true
+		case "context.WithValue":
+			return ctxDetached(callArgs(x)[0], ctx, d+1)
+		case "(*net/http.Request).Context":
+			return reqDetached(callArgs(x)[0], ctx, d+1)
+		}
+	case *ssa.Extract:
+		if call, ok := x.Tuple.(*ssa.Call); ok {
+			switch calleeName(call) {
+			case "context.WithTimeout", "context.WithDeadline", "context.WithCancel":
+				return ctxDetached(callArgs(call)[0], ctx, d+1)
+			}
+		}
+	case *ssa.Parameter:
+		if a, c2, ok := paramArg(x, ctx); ok {
+			return ctxDetached(a, c2, d+1)
+		}
+	case *ssa.FreeVar:
+		if b := freeVarBinding(x); b != nil {
+			return ctxDetached(b, ctx, d+1)
+		}
+	case *ssa.Phi:
+		for _, e := range x.Edges {
+			if !ctxDetached(e, ctx, d+1) {
+				return false
+			}
+		}
+		return len(x.Edges) > 0
+	case *ssa.MakeInterface:
+		return ctxDetached(x.X, ctx, d+1)
+	case *ssa.ChangeInterface:
+		return ctxDetached(x.X, ctx, d+1)
+	}
+	return false
 }
 
 // resolveValAlloc: v (or the single-store cell it loads) is a local allocation.
@@ -833,6 +949,26 @@ func checkC06(c *Ctx, r *Report) {
 		}
 		sameKey := sameVal(callArgs(upd)[1], callArgs(get)[1]) && resolveVal(callArgs(upd)[1]) == ssa.Value(paramNamed(f, "key"))
 		r.Check(sameKey && instrDominates(upd, get), "C06.R3", "304: UpdateMetadata(key) then Get(key)", c.InstrPos(upd), "same key parameter, in this order", "the 304 path does not re-read the entry under the key it just renewed")
+		// ... and what it hands back is that re-read entry: an entry object looked up before the renewal may have been
+		// replaced in the store meanwhile (a Range request's 200), its body is then not the one the 304 confirmed
+		staleRet := ""
+		eachInstr(f, func(in ssa.Instruction) {
+			ret, ok := in.(*ssa.Return)
+			if !ok || isRecoverReturn(ret) {
+				return
+			}
+			vals := retVals(ret)
+			if len(vals) < 2 || isNilConst(vals[0]) {
+				return
+			}
+			if ex, isE := resolveVal(vals[0]).(*ssa.Extract); isE && ex.Index == 0 {
+				if gc, isC := ex.Tuple.(*ssa.Call); isC && calleeName(gc) == "("+cachePkg+".Cache).Get" && instrDominates(upd, gc) {
+					return
+				}
+			}
+			staleRet = c.InstrPos(ret)
+		})
+		r.Check(staleRet == "", "C06.R3", "304: the entry handed back is the one re-read after the renewal", c.Pos(f.Pos()), "every entry returned is the result of the Get that follows UpdateMetadata", "the 304 path returns at "+staleRet+" an entry that is not the result of a lookup made after the renewal: when another request replaced the stored response while the origin was being asked, the client is served the replaced body as current")
 		reach := syncReach(li, []*ssa.Function{f})
 		bad := ""
 		for gfn := range reach {
@@ -858,7 +994,22 @@ func checkC06(c *Ctx, r *Report) {
 					return
 				}
 				written = append(written, fname(fv))
-				s := atomStr(st.Val)
+				sv := st.Val
+				// the new expiry may be computed just before the update and captured (expires := time.Now().Add(...))
+				if ld, isLd := sv.(*ssa.UnOp); isLd && ld.Op == token.MUL {
+					if fvar, isFV := ld.X.(*ssa.FreeVar); isFV {
+						if b := freeVarBinding(fvar); b != nil {
+							if sts := storesTo(b); len(sts) == 1 {
+								sv = resolveVal(sts[0].Val)
+							}
+						}
+					}
+				} else if fvar, isFV := resolveVal(sv).(*ssa.FreeVar); isFV {
+					if b := freeVarBinding(fvar); b != nil {
+						sv = resolveVal(b)
+					}
+				}
+				s := atomStr(sv)
 				if strings.HasPrefix(s, "Add(Now(),") && strings.Contains(s, "CachePolicy.DefaultMaxAge") {
 					okVal = true
 				}
@@ -999,8 +1150,8 @@ func checkC09(c *Ctx, r *Report) {
 			n++
 			errv := extractOf(call, 1)
 			okFb := false
-			for _, fc := range findCalls(f, fetcherT+"fetchDirectlyFromUpstream") {
-				fsx := factStrs(f, fc)
+			for _, fb := range directFallbacks(f) {
+				fsx := fb.facts
 				pref := "Is(" + atomStr(call) + "#1,ErrNotCacheable)"
 				if fsx[pref+"=true"] {
 					okFb = true
@@ -1140,4 +1291,49 @@ func instrDominatesOrSameArm(a, b ssa.Instruction) bool {
 		return true
 	}
 	return reachableInstr(a, b, nil) && !reachableInstr(b, a, nil)
+}
+
+// fbSite is a call of fetchDirectlyFromUpstream made by f or by a same-package helper f hands the work to
+// (directOnCacheTrouble(req, err)): the facts holding there, in f's terms, and the request it fetches with, resolved to
+// f's value.
+type fbSite struct {
+	call  *ssa.Call
+	facts map[string]bool
+	req   ssa.Value
+}
+
+func directFallbacks(f *ssa.Function) []fbSite {
+	var out []fbSite
+	for _, hc := range helperContexts(f, 2) {
+		for _, fc := range findCalls(hc.fn, fetcherT+"fetchDirectlyFromUpstream") {
+			facts := ctxFactStrs(hc.fn, fc, hc.ctx)
+			// what held where the helper was entered holds inside it too
+			for i, cs := range hc.ctx {
+				var g *ssa.Function = f
+				if i > 0 {
+					g = helperBody(hc.ctx[i-1])
+				}
+				if g == nil {
+					continue
+				}
+				for k := range ctxFactStrs(g, cs, hc.ctx[:i]) {
+					facts[k] = true
+				}
+			}
+			req, rctx := resolveVal(argOf(fc, "req", 1)), hc.ctx
+			for hop := 0; hop < 4; hop++ {
+				prm, isP := req.(*ssa.Parameter)
+				if !isP {
+					break
+				}
+				a, c2, okA := paramArg(prm, rctx)
+				if !okA {
+					break
+				}
+				req, rctx = resolveVal(a), c2
+			}
+			out = append(out, fbSite{fc, facts, req})
+		}
+	}
+	return out
 }
